@@ -129,7 +129,19 @@ class C13(Prop):
                 cur = [x for x in cur if x != l]
                 rounds.append(list(cur))
             c["busy"] = rounds
+            c["lat"] = self._lat(rng, targets)
         return c
+
+    def _lat(self, rng, targets):
+        """per-location lookup latency (event-loop turns); half of the time the earlier a target is declared the
+        slower its connector answers, otherwise random: the order in which connectors answer must not matter"""
+        locs = []
+        for t in targets:
+            if t not in locs:
+                locs.append(t)
+        if rng.random() < 0.5:
+            return [[d, sv, (len(locs) - i) * rng.choice([1, 1, 2])] for i, (d, sv) in enumerate(locs)]
+        return [[d, sv, rng.choice([0, 0, 1, 2, 3, 5])] for d, sv in locs]
 
     def _vary(self, rng, inputs):
         out = []
@@ -167,6 +179,7 @@ class C13(Prop):
             locs = sorted(set((t[0], t[1] or "") for t in base["targets"]))
             c["busy0"] = [[d, s or None] for d, s in locs if rng.random() < 0.25]
             c["jobs"] = jobs
+            c["lat"] = self._lat(rng, base["targets"])
         return c
 
     def gen(self, rng, tier):
@@ -222,7 +235,11 @@ class C13(Prop):
             async def undeploy(self, external):
                 pass
 
+            LAT = {}  # (deployment, service) -> event-loop turns the lookup takes (set per case)
+
             async def get_available_locations(self, service=None):
+                for _ in range(FakeConnector.LAT.get((self.deployment_name, service), 0)):
+                    await asyncio.sleep(0)
                 n = f"{self.deployment_name}:{service}"
                 return {n: AvailableLocation(name=n, deployment=self.deployment_name, hostname="h",
                                              service=service, slots=1)}
@@ -237,6 +254,7 @@ class C13(Prop):
 
         connector_classes["fake"] = FakeConnector
         self.a = asyncio
+        self.FC = FakeConnector
         self.loop = QLoop()
         asyncio.set_event_loop(self.loop)
         self.k = dict(BindingConfig=BindingConfig, Target=Target, FilterConfig=FilterConfig, Job=Job, Status=Status,
@@ -389,7 +407,12 @@ class C13(Prop):
         return obs
 
     def impl_run(self, c):
-        return self.loop.run_until_complete(self._run(c))
+        # connector latencies: how many event-loop turns get_available_locations of each location takes
+        self.FC.LAT = {(d, sv): n for d, sv, n in c.get("lat", [])}
+        try:
+            return self.loop.run_until_complete(self._run(c))
+        finally:
+            self.FC.LAT = {}
 
     # ---------------------------------------------------------------- oracle (from the property text)
     @staticmethod
@@ -574,6 +597,8 @@ class C13(Prop):
                         yield {**c, "filters": c["filters"][:i] + [f[:j] + f[j + 1:]] + c["filters"][i + 1:]}
             if c["f"] == "sseq" and c["busy0"]:
                 yield {**c, "busy0": []}
+            if c.get("lat"):
+                yield {**c, "lat": [[d, sv, min(n, 1)] for d, sv, n in c["lat"]]}
             return
         n = len(c["targets"])
         for i in range(n):
